@@ -5,7 +5,7 @@ set, non-teq value under some key, other metadata; get_recording_metadata(id) !=
 fetching a never-saved id returning anything or raising anything other than NoSuchRecording.
 """
 from vlib import env
-from vlib.values import Gen, teq, fresh, in_domain, HOSTILE_STRINGS
+from vlib.values import recording_in_domain, Gen, teq, fresh, in_domain, HOSTILE_STRINGS
 from vlib.cassettes import open_box
 
 PROPERTY = 'C07'
@@ -56,7 +56,7 @@ def build_store(ctx, rng):
             if sharing and rng.random() < 0.3:
                 md['shared'] = shared
             # whole-recording domain gate, asked of jsonpickle directly (py/id numbering is graph-global)
-            if in_domain({'recording_data': data, 'recording_metadata': md}) and in_domain(dict(data, _metadata=md)):
+            if recording_in_domain(data, md):
                 break
             ctx.count('stores_out_of_domain')
         else:
